@@ -343,6 +343,10 @@ def main(argv):
 
     for e, v in known_hit.values():
         print(f"KNOWN-FINDING: property={pid} {e['what']}  [e.g. {v['key']}]")
+    if os.environ.get("VERIF_DUMP_VIOLATIONS"):
+        with open(os.environ["VERIF_DUMP_VIOLATIONS"], "w") as f:
+            for k, v in sorted(fresh.items()):
+                f.write(f"{k}\t{v['what']}\n")
     rc = 0
     for i, (k, v) in enumerate(sorted(fresh.items(), key=lambda kv: len(json.dumps(kv[1]["case"], default=str)))):
         if i >= MAX_REPORTED:
